@@ -448,8 +448,7 @@ def obligations(tier, seed):
     obs.append(ob_polygon(2, 1, False, 3))
     if not q:
         obs.append(ob_polygon(2, 2, False, 1))
-        obs.append(ob_polygon(3, 1, False, 0))
-        # (3 caps x 2 points, 2 caps x 2 RA/Dec points, a 2-point window over 3 caps: z3 came back unknown or not,
+        # (3 caps x 1 or 2 points, 2 caps x 2 RA/Dec points, a 2-point window over 3 caps: z3 came back unknown or not,
         #  depending on the run - outside the thorough bound rather than reported by luck)
     obs.append(ob_window((1, 1), 1))
     obs.append(ob_window((1, 0), 1))
